@@ -47,6 +47,9 @@ func genC12(g *G, n int, out io.Writer) {
 			if g.coin(0.6) && len(c.Paths) > 0 {
 				inner := c.Validations[k].Rule
 				depth := 1 + g.n(3)
+				if g.coin(0.12) {
+					depth = 4 + g.n(3) // deep nesting: every level adds three levels to the result tree
+				}
 				for d := 0; d < depth; d++ {
 					in2 := inner
 					inner = Rule{Nested: &in2, PathIx: ip(g.n(len(c.Paths)))}
